@@ -6,7 +6,7 @@ CFG = dict(
          "(Lancero: reconfigure with other column/card separation, first row, active-card subset/order/extra card, row count, a wholly "
          "different configuration, the same configuration again, or PrepareChannels again without reconfiguring; Abaco/simulated/ROACH "
          "re-prepared with other layouts / channel counts; simulated sources also get Configure requests that are accepted, refused at once, or "
-         "refused for the buffer length AFTER the channel count was stored — shrink, grow, never configured — followed by Sample+PrepareChannels) with the tables judged after EVERY step; 50% single Lancero (0..12 faked cards with distinct device numbers in "
+         "refused for the buffer length AFTER the channel count was stored — shrink, grow, never configured — followed by Sample+PrepareChannels) with the tables judged after EVERY step; ~5% of all cases go through the REAL LanceroSource.Configure (cringeGlobals.json written by the hook) with ActiveCards lists that are sorted, unsorted, repeat a card adjacently / one apart / first-last / three times, name a missing card, or are empty, each answer and the active cards it leaves compared with the model, followed by Sample-equivalent+PrepareChannels (+START); 50% single Lancero (0..12 faked cards with distinct device numbers in "
          "sorted or shuffled order, 0..10 columns, 0..256 rows, equal or mixed geometries, first-row numbers incl. 0/negative/1e6, column and card "
          "separations 0 / exactly large enough / one too small / larger / tiny / negative / random; PrepareChannels called twice without "
          "reconfiguring, so the state a rejection leaves behind is exercised), 20% Abaco (1..12 channel groups announced by sampled packets "
@@ -21,7 +21,8 @@ CFG = dict(
     jobs=seeds(1, 4),
     trusted_base=["Go int modelled as unbounded Int (no 64-bit overflow in channel-number arithmetic)",
                   "fmt.Sprintf(\"%d\") transcribed as fmtInt and the %s.%s tail of the file-name pattern as list append (compared with the real strings every run)",
-                  "Lancero device numbers are distinct (LanceroSource.Configure refuses to activate a device twice; devices are keyed by number)",
+                  "Lancero device numbers are distinct: proved for the modelled Configure (C19_configure_devnums_distinct) and the real Configure is "
+                  "driven with arbitrary ActiveCards lists every run; cases that set the active cards directly use distinct numbers",
                   "sort.Sort on group keys modelled by insertion sort (results agree whenever first channels differ, which the overlap check enforces)"],
     assumptions=["Lancero cards are faked (geometry fields set directly, nchan computed as LanceroSource.Sample does); Abaco packets come from a "
                  "scripted PacketProducer; ROACH nchan set directly",
@@ -69,4 +70,5 @@ THEOREMS = [
     ("DastardV.Props.C19", "DastardV.C19.C19_history_independent"),
     ("DastardV.Props.C19", "DastardV.C19.C19_generic_history_independent"),
     ("DastardV.Props.C19", "DastardV.C19.C19_generic_start_consistent"),
+    ("DastardV.Props.C19", "DastardV.C19.C19_configure_devnums_distinct"),
 ]
